@@ -21,8 +21,8 @@ KINDS = "map,cont,flag,counter,i64,u32,u64,str,gas"
 
 # driver rounds (a gas round yields one history per function it executed, so the number of validated histories is larger)
 TIERS = {
-    "quick": dict(plain=[400, 400], race=[250, 250], bulk_plain=1000, bulk_race=1500, bulkreps=1, par=4),
-    "thorough": dict(plain=[700] * 12, race=[600] * 8, bulk_plain=2000, bulk_race=4000, bulkreps=2, par=6),
+    "quick": dict(plain=[600] * 4, race=[500] * 4, bulk_plain=1000, bulk_race=1500, bulkreps=1, par=4),
+    "thorough": dict(plain=[2500] * 20, race=[2000] * 16, bulk_plain=4000, bulk_race=4000, bulkreps=3, par=6),
 }
 
 LOCK_CFG = "SPECIFICATION LSpec\nCONSTANT NoLock = FALSE\nINVARIANTS LTypeOK OneSchedule HeldStable MutualExclusion\n"
@@ -322,11 +322,14 @@ CRASH_SIGNS = ["fatal error: concurrent map", "WARNING: DATA RACE", "fatal error
                "sync: unlock of unlocked mutex"]
 
 
-def drive(run, exe, race, seed, rounds, bulk, bulkreps, tag, kinds=KINDS, bulkg=8):
+def drive(run, exe, race, seed, rounds, bulk, bulkreps, tag, kinds=KINDS, bulkg=8, gmax=None):
     """One driver invocation. -> dict(trace, stats, args, race, crash) ; crash = text when the process died of a concurrency failure."""
     trace = os.path.join(run.dir, "conc-%s.ndjson" % tag)
     racelog = os.path.join(run.dir, "racelog-%s" % tag)
-    args = ["conc", "-seed", str(seed), "-rounds", str(rounds), "-kinds", kinds, "-bulk", str(bulk), "-bulkreps", str(bulkreps), "-bulkg", str(bulkg)]
+    # logged rounds: 2-16 goroutines; 2-8 in the race build (its slow instrumented operations nearly all overlap, and the
+    # linearization search grows with 2^overlap); the unlogged bulk runs use bulkg goroutines in both builds
+    gmax = gmax or (8 if race else 16)
+    args = ["conc", "-seed", str(seed), "-rounds", str(rounds), "-kinds", kinds, "-bulk", str(bulk), "-bulkreps", str(bulkreps), "-bulkg", str(bulkg), "-gmax", str(gmax)]
     full = [exe] + args + ["-out", trace] + (["-racelog", racelog] if race else [])
     env = dict(os.environ, GORACE="log_path=%s halt_on_error=0 exitcode=66" % racelog)
     try:
@@ -538,10 +541,11 @@ def replay(run, obj):
         bulk = int(a[a.index("-bulk") + 1])
         reps = int(a[a.index("-bulkreps") + 1])
         kinds = a[a.index("-kinds") + 1]
+        gmax = int(a[a.index("-gmax") + 1]) if "-gmax" in a else None
         before = len(run.violations)
         run.add_violation = lambda pred, desc, robj: run.violations.append({"predicate": pred, "desc": desc, "replay": None})   # re-runs write no replay files
         for i in range(reruns):
-            d = drive(run, exe, bool(drv.get("race")), seed, rounds, bulk, reps, "replay%d" % i, kinds=kinds)
+            d = drive(run, exe, bool(drv.get("race")), seed, rounds, bulk, reps, "replay%d" % i, kinds=kinds, gmax=gmax)
             n0 = len(run.violations) + len(run.known_hits)
             judge_chunk(run, d, "replay%d" % i, maxviol=2)
             if len(run.violations) + len(run.known_hits) > n0:
